@@ -217,10 +217,13 @@ class SimFile:
 
 class SCfg:
     def __init__(self, presize=0, scripts=(), reader_only=(), buffered=False):
-        """scripts: per process a list of ops: ['store', gid, t] | ['read', gid] | ['len'] | ['contig'] | ['iter'] | ['flush']"""
+        """scripts: per process a list of ops: ['store', gid, t] | ['read', gid] | ['len'] | ['contig'] | ['iter'] | ['flush']
+        and, outside the model (such runs are judged by the oracle only): ['enter'] / ['exit'] — the context-manager use, which
+        opens the process's file eagerly and closes all handles; a store after an exit re-opens the file in append mode"""
         self.presize = presize
         self.buffered = buffered
         self.scripts = [[list(op) for op in sc] for sc in scripts]
+        self.oracle_only = any(op[0] in ("enter", "exit") for sc in self.scripts for op in sc)
 
     def model_line(self):
         parts = []
@@ -321,6 +324,10 @@ class StorageEnv:
                     res.append("texts:" + ",".join(canon(x) for x in storage))
                 elif op[0] == "flush":
                     storage.flush(); res.append("ok")
+                elif op[0] == "enter":
+                    res.append("ok" if storage.__enter__() is storage else "enter-returned-other")
+                elif op[0] == "exit":
+                    storage.__exit__(None, None, None); res.append("ok")
             except IndexError:
                 res.append("IndexError")
             except ValueError:
